@@ -587,4 +587,62 @@ theorem eval_range_call (f sc : Nat) (it fc : Node) (t : Tok)
   | map r => simp [hcall]
   | «opaque» w => simp [hcall]
 
+/-! ### the call of a declared function at its call node -/
+
+/-- **eval_user_call**: evaluating a call node `name(args)` (an identifier with its argument list; the name is
+    neither a logging function nor in package `math`): the value of the variable decides — when it is a declared
+    function `id`, the arguments are evaluated (each with a fresh instance-state map) and `runFunction` runs it;
+    an error leaving the function is passed through `wrapCallErr` (plain Go errors become runtime errors at the
+    call node, everything else — also break and continue signals — is unchanged); any other value goes the
+    general way (`callFunction`: builtins, stdlib, "Unknown construct") -/
+theorem eval_user_call (f sc : Nat) (n fc : Node) (t : Tok)
+    (hn : n.name = "identifier") (ht : n.tok = some t) (hc : n.children = [some fc]) (hfc : fc.name = "funccall")
+    (hmath : ((splitDots t.val).head? == some (str "math")) = false)
+    (hlog : (bytesToString t.val == "log" || bytesToString t.val == "error" || bytesToString t.val == "debug") = false) :
+    eval (f+3) sc n = (do
+      let (v, _) ← getValue sc t.val
+      match v with
+      | .func id => do
+        let args ← argsEval f sc fc
+        match ← attemptE (runFunction f sc id args) with
+        | .ok r => pure r
+        | .error e => throw (wrapCallErr n e)
+      | v => callFunction (f+1) sc n t.val v) := by
+  rw [eval]
+  simp only [hn]
+  rw [evalIdent]
+  simp only [tokOf, ht, pure_bind, hc, List.isEmpty_cons, Bool.false_eq_true, if_false,
+    accessString_call f sc n fc t.val hc hfc, hmath]
+  congr 1; funext p
+  obtain ⟨v, b⟩ := p
+  simp only [List.any_cons, hfc, beq_self_eq_true, Bool.true_or, if_true]
+  cases v with
+  | func id =>
+    simp only []
+    rw [callFunction]
+    simp only [hc, List.find?_cons, hfc, beq_self_eq_true, pure_bind, hlog, Bool.false_eq_true, if_false, argsEval]
+    simp
+    rfl
+  | _ => rfl
+
+/-- everything `runFunction` does before the body runs: the declaration of function `id`, its parameters and body,
+    and the frame (`buildFrame`: fresh root scope, `this`/`super`, parameters, link to the declaration scope) -/
+def framePrefix (f callerSc id : Nat) (args : List Val) : M (Nat × Node) := do
+  let fr ← (match (← get).funcs[id]? with
+    | some fr => pure fr
+    | none => throw (Sig.unsupported "dangling function id"))
+  let c0 ← child fr.decl 0
+  let off := if c0.name == "identifier" then 1 else 0
+  let params := (← child fr.decl off).children
+  let body ← child fr.decl (off + 1)
+  let fvs ← buildFrame (fun d => eval f callerSc d) fr params args
+  pure (fvs, body)
+
+theorem runFunction_frame_then_callCore (f callerSc id : Nat) (args : List Val) :
+    runFunction (f+1) callerSc id args = (do
+      let (fvs, body) ← framePrefix f callerSc id args
+      callCore (withFreshIs (eval f fvs body))) := by
+  rw [runFunction_is_callCore]
+  simp [framePrefix]
+
 end Ecal.Ev
